@@ -22,7 +22,7 @@ ASSUMPTIONS = ['CMAP text written by the harness is the ground truth for label c
 MINIMUMS = {'records': {'quick': 1000, 'thorough': 20000}, 'candidates': {'quick': 2000, 'thorough': 40000},
             'direct-calls': {'quick': 5000, 'thorough': 100000}, 'multi-segment-rows': {'quick': 50, 'thorough': 500},
             'joined-records': {'quick': 10, 'thorough': 100}, 'second-pass-records': {'quick': 50, 'thorough': 500}}
-CLASSES = ['clean', 'noisy', 'noisy', 'chimeric', 'indel', 'partial']
+CLASSES = ['clean', 'noisy', 'noisy', 'chimeric', 'translocation', 'indel', 'partial']
 
 
 def plan(tier, seed):
